@@ -107,7 +107,14 @@ fn spawn(exe: &std::path::Path, t: u8, r: u8, m: u8, set: &str, seed: u64, extra
 }
 
 /// all sweeps of one header configuration on one address set; one protocol line per sweep
+/// deaths pinpointed so far by this process: after a few, further dying sweeps are reported without bisection and the
+/// stream stops early (the violation is established; bisecting hundreds of crashes only costs time)
+static DEATHS: std::sync::atomic::AtomicUsize = std::sync::atomic::AtomicUsize::new(0);
+const MAX_PINPOINTED: usize = 3;
+
 fn run_config(exe: &std::path::Path, t: u8, r: u8, m: u8, set: &str, opts: &Opts, w: &mut dyn Write) {
+  use std::sync::atomic::Ordering;
+  if DEATHS.load(Ordering::Relaxed) >= 2 * MAX_PINPOINTED { return; }
   let addrs = addr_set(set == "all", opts.seed);
   let nsweeps = REG_PREFIXES.len() * KINDS.len();
   let mut results: Vec<Option<String>> = vec![None; nsweeps];
@@ -117,6 +124,11 @@ fn run_config(exe: &std::path::Path, t: u8, r: u8, m: u8, set: &str, opts: &Opts
     for (i, s) in done { results[i] = Some(format!("died=none {}", s)); }
     match open {
       Some(i) => {
+        if DEATHS.fetch_add(1, Ordering::Relaxed) >= MAX_PINPOINTED {
+          results[i] = Some(format!("died=unbisected:0:{} dig=0 img=0", why));
+          from = nsweeps;
+          continue;
+        }
         // bisect the dying sweep: smallest number of accesses that kills the child
         let (mut lo, mut hi) = (0usize, addrs.len());
         while hi - lo > 1 {
@@ -136,6 +148,7 @@ fn run_config(exe: &std::path::Path, t: u8, r: u8, m: u8, set: &str, opts: &Opts
     }
   }
   for i in 0..nsweeps {
+    if results[i].is_none() { continue; }   // not run (stopped after a death)
     let (ri, kind) = (i / KINDS.len(), KINDS[i % KINDS.len()]);
     let regs: Vec<String> = REG_PREFIXES[ri].iter().map(|(a, v)| format!("{}:{}", a, v)).collect();
     writeln!(w, "c11 type={} rom={} ram={} banks={} ramb={} regs={} kind={} set={} seed={} | {}", t, r, m, rom_bank_count(r), header(t, r, m).get_ram_size_bytes(), regs.join(";"), kind, set, opts.seed,
